@@ -28,9 +28,10 @@
 (* after every step.                                                       *)
 (*                                                                         *)
 (* *Ref operators  = what the property demands (count preserving).         *)
-(* *Impl operators = transcription of the code's order of steps; they      *)
-(* differ from *Ref only under StraddleKF (known findings KF-C31-1/2),      *)
-(* which TLC checks (ImplIsRefOrKF, ResetImplIsRefOrKF).                    *)
+(* *Impl operators = transcription of the code's order of steps; TLC       *)
+(* checks that they agree with *Ref on every pair (ImplIsRef,              *)
+(* ResetImplIsRef).  Before the repairs of KF-C31-1/2 they differed        *)
+(* exactly under StraddleKF, which is kept below as documentation.         *)
 (***************************************************************************)
 EXTENDS Integers, Sequences, FiniteSets, TLC, Json
 
@@ -173,16 +174,17 @@ AddExpRef(a, b, sg) ==
                !.cnt = a.cnt + sg * b.cnt, !.sum = a.sum + sg * b.sum]
 
 \* IMPLEMENTATION: FloatHistogram.Add — the receiver is widened and trimmed in its own schema and
-\* then reduced; the other operand is reduced UNTRIMMED and addBuckets skips its leading buckets
-\* whose upper bound *in the common schema* is <= threshold.
+\* then reduced; the other operand loses the buckets inside the common zero bucket in its own schema
+\* (zeroBucketsWithinThreshold, the repair of KF-C31-1), is reduced, and addBuckets skips the leading
+\* buckets whose upper bound in the common schema is <= threshold.
 SkipLow(f, s, T) == TLCEval([i \in IDX |-> IF Bound(i, s) <= T THEN 0 ELSE f[i]])
 AddExpImpl(a, b, sg) ==
   LET T  == CommonT(a, b)
       sm == Min2(a.s, b.s)
       ap == Red(TrimF(a.p, a.s, a.zt, T), a.s - sm)
       an == Red(TrimF(a.n, a.s, a.zt, T), a.s - sm)
-      bp == SkipLow(Red(b.p, b.s - sm), sm, T)
-      bn == SkipLow(Red(b.n, b.s - sm), sm, T)
+      bp == SkipLow(Red(SkipLow(b.p, b.s, T), b.s - sm), sm, T)
+      bn == SkipLow(Red(SkipLow(b.n, b.s, T), b.s - sm), sm, T)
   IN [a EXCEPT !.s = sm, !.zt = T, !.zc = ZCF(a, T) + sg * ZCF(b, T),
                !.p = TLCEval([i \in IDX |-> ap[i] + sg * bp[i]]),
                !.n = TLCEval([i \in IDX |-> an[i] + sg * bn[i]]),
@@ -191,7 +193,7 @@ AddExpImpl(a, b, sg) ==
 AddRef(a, b, sg)  == IF a.k = "cb" THEN AddCB(a, b, sg) ELSE AddExpRef(a, b, sg)
 AddImpl(a, b, sg) == IF a.k = "cb" THEN AddCB(a, b, sg) ELSE AddExpImpl(a, b, sg)
 
-\* KF-C31-1 / KF-C31-2: a populated bucket of the finer histogram f is absorbed by the threshold T
+\* Former KF-C31-1 / KF-C31-2 (repaired): a populated bucket of the finer histogram f is absorbed by the threshold T
 \* (it starts below T) although the coarser bucket (schema sc) it is merged into ends above T.
 StraddleKF(f, T, sc) ==
   /\ f.k = "exp" /\ f.s > sc /\ T # f.zt
@@ -226,8 +228,9 @@ ResetRef(c, p) ==
   \/ /\ c.k = "cb"
      /\ LET I == c.cv \cap p.cv IN Decr(MapCB(c.p, I), MapCB(p.p, I))   \* intersect mismatched bounds
 
-\* IMPLEMENTATION: order of the tests of FloatHistogram.DetectReset; prev is merged to cur's schema
-\* untrimmed by floatBucketIterator, which then skips buckets whose merged upper bound <= threshold.
+\* IMPLEMENTATION: order of the tests of FloatHistogram.DetectReset; floatBucketIterator leaves out
+\* prev's buckets inside cur's zero bucket in prev's own schema (repair of KF-C31-2), merges the rest
+\* to cur's schema and skips merged buckets whose upper bound <= threshold.
 ResetImpl(c, p) ==
   IF c.cnt < p.cnt THEN TRUE
   ELSE IF c.k = "cb" /\ p.k # "cb" THEN TRUE
@@ -237,13 +240,13 @@ ResetImpl(c, p) ==
   ELSE IF WidenT(p, c.zt) # c.zt THEN TRUE
   ELSE IF c.zc < ZCF(p, c.zt) THEN TRUE
   ELSE IF c.k = "cb" THEN Decr(c.p, p.p)
-  ELSE \/ Decr(SkipLow(c.p, c.s, c.zt), SkipLow(Red(p.p, p.s - c.s), c.s, c.zt))
-       \/ Decr(SkipLow(c.n, c.s, c.zt), SkipLow(Red(p.n, p.s - c.s), c.s, c.zt))
+  ELSE \/ Decr(SkipLow(c.p, c.s, c.zt), SkipLow(Red(SkipLow(p.p, p.s, c.zt), p.s - c.s), c.s, c.zt))
+       \/ Decr(SkipLow(c.n, c.s, c.zt), SkipLow(Red(SkipLow(p.n, p.s, c.zt), p.s - c.s), c.s, c.zt))
 
 \* prediction carried in behaviours: "na" when a count is negative (not a histogram any more)
 ResetObs(c, p) == IF NonNeg(c) /\ NonNeg(p) THEN (IF ResetRef(c, p) THEN "reset" ELSE "no") ELSE "na"
-\* the code may answer differently only under KF-C31-2 (TLC checks that: ResetImplIsRefOrKF)
-ResetKF(c, p)  == NonNeg(c) /\ NonNeg(p) /\ c.k = "exp" /\ p.k = "exp" /\ c.s < p.s /\ StraddleKF(p, c.zt, c.s)
+\* no known deviation of DetectReset is left (KF-C31-2 repaired): the code must answer as the reference
+ResetKF(c, p)  == FALSE
 
 -----------------------------------------------------------------------------
 (* Input library *)
@@ -299,7 +302,7 @@ ObsLite(a, b) ==
 Obs(a, b) ==
   LET ar == a.ty = "float" /\ b.ty = "float" /\ Compatible(a, b)
       T  == IF ar /\ a.k = "exp" THEN CommonT(a, b) ELSE ZT0
-      kf == ar /\ a.k = "exp" /\ StraddleKF(b, T, a.s)
+      kf == FALSE                                   \* KF-C31-1 repaired: no deviation is accepted any more
   IN ObsLite(a, b) @@
      [wAdd |-> IF ar THEN J(AddRef(a, b, 1)) ELSE "", wSub |-> IF ar THEN J(AddRef(a, b, -1)) ELSE "",
       wKf |-> kf,
@@ -379,7 +382,7 @@ Arith(name, sg) ==
   /\ name \in Ops /\ BothFloat
   /\ IF Compatible(A, B)
      THEN LET r == AddRef(A, B, sg)
-              kf == A.k = "exp" /\ StraddleKF(B, r.zt, A.s)
+              kf == FALSE
           IN Put(name, "", [err |-> FALSE, kf |-> kf, impl |-> IF kf THEN J(AddImpl(A, B, sg)) ELSE ""], r, B)
      ELSE Put(name, "", [err |-> TRUE, kf |-> FALSE, impl |-> ""], A, B)       \* ErrHistogramsIncompatibleSchema
 
@@ -435,10 +438,8 @@ TotalPreserved(add, sub) ==
 AddCommutes(add) == Sem(add) = [Sem(AddRef(B, A, 1)) EXCEPT !.sum = A.sum + B.sum]
 \* the result is at the lower resolution and the wider zero bucket
 LowerResWiderZero(add) == A.k = "exp" => add.s = Min2(A.s, B.s) /\ add.zt >= Max2(A.zt, B.zt)
-\* the code's order of steps gives the reference result except under the known finding
-ImplIsRefOrKF(add, sub) ==
-  \/ AddImpl(A, B, 1) = add /\ AddImpl(A, B, -1) = sub
-  \/ StraddleKF(B, add.zt, A.s)                                 \* KF-C31-1
+\* the code's order of steps gives the reference result
+ImplIsRef(add, sub) == AddImpl(A, B, 1) = add /\ AddImpl(A, B, -1) = sub
 \* growth by addition is never a reset; the converse direction always is one
 AddIsNoReset(add) == (NonNeg(A) /\ NonNeg(B)) =>
   /\ ~ResetRef(add, A)
@@ -451,7 +452,7 @@ C31Arith == Arithable =>
   IN /\ TotalPreserved(add, sub)
      /\ AddCommutes(add)
      /\ LowerResWiderZero(add)
-     /\ ImplIsRefOrKF(add, sub)
+     /\ ImplIsRef(add, sub)
      /\ AddIsNoReset(add)
 
 \* resolution reduction never changes the total of any bucket, and composes
@@ -459,10 +460,8 @@ ReducePreserves == A.k = "exp" => \A t \in Schemas : ReduceOK(A, t) =>
   /\ Total(ReduceRef(A, t)) = Total(A)
   /\ \A u \in Schemas : ReduceOK(ReduceRef(A, t), u) => ReduceRef(ReduceRef(A, t), u) = ReduceRef(A, u)
 
-\* DetectReset's order of tests decides the statement's disjunction except under the known finding
-ResetImplIsRefOrKF == (NonNeg(A) /\ NonNeg(B)) =>
-  \/ ResetImpl(A, B) = ResetRef(A, B)
-  \/ StraddleKF(B, A.zt, A.s)                                   \* KF-C31-2
+\* DetectReset's order of tests decides the statement's disjunction
+ResetImplIsRef == (NonNeg(A) /\ NonNeg(B)) => ResetImpl(A, B) = ResetRef(A, B)
 
 \* a histogram never resets against itself or against an empty one of the same layout
 SelfNoReset == NonNeg(A) => ~ResetRef(A, A)
